@@ -538,7 +538,8 @@ class Linker:
             if msg:
                 on_error("N-arity", fname, call,
                          f"TypeError: {fi.qualname}() {msg}" + (f" (callee arrives through {how})" if how != "direct" else ""),
-                         f"{npos} positional, keywords {kws}", f"a call shape matching def {fi.name}({', '.join(fi.signature.positional)})")
+                         f"{npos} positional, keywords {kws}", f"a call shape matching def {fi.name}({', '.join(fi.signature.positional)})",
+                         construct=f"{fi.qualname}/{npos} positional/{sorted(kws)}")
             else:
                 on_ok("N-arity", f"{mod.short}.{fname}:{norm_text(call.func)}->{fi.qualname}")
 
@@ -547,15 +548,25 @@ class Linker:
 # E2 front-end with the correlated-guard idiom
 # --------------------------------------------------------------------------
 
-def _enclosing_if_tests(mod: Module, node, func_node) -> Set[str]:
-    """Normalised texts of the tests of all `if` statements whose *body* (true
-    branch) contains `node`."""
+def _enclosing_if_tests(mod: Module, node, func_node) -> Set[Tuple[str, bool]]:
+    """(normalised test text, polarity) of every `if` whose true branch (polarity True) or else branch
+    (polarity False) contains `node`; a leading `not` is folded into the polarity."""
     out = set()
     cur = node
     parent = mod.parent(cur)
     while parent is not None and cur is not func_node:
-        if isinstance(parent, ast.If) and any(cur is s for s in parent.body):
-            out.add(norm_text(parent.test))
+        if isinstance(parent, ast.If):
+            pol = None
+            if any(cur is s for s in parent.body):
+                pol = True
+            elif any(cur is s for s in parent.orelse):
+                pol = False
+            if pol is not None:
+                t = parent.test
+                while isinstance(t, ast.UnaryOp) and isinstance(t.op, ast.Not):
+                    t = t.operand
+                    pol = not pol
+                out.add((norm_text(t), pol))
         cur = parent
         parent = mod.parent(cur)
     return out
@@ -576,7 +587,7 @@ def definite_assignment_findings(mod: Module, fi: FuncInfo):
             common = set(use_tests)
             for d in def_nodes:
                 common &= _enclosing_if_tests(mod, d, fi.node)
-            for t in sorted(common):
+            for (t, _pol) in sorted(common):
                 try:
                     names = {n.id for n in ast.walk(ast.parse(t, mode="eval")) if isinstance(n, ast.Name)}
                 except SyntaxError:
